@@ -1828,6 +1828,11 @@ fn strategy_from_string_map(
     Ok(strategy)
 }
 
+#[cfg(scylla_verif)]
+#[path = "fetching_verif.rs"]
+#[allow(missing_docs, unreachable_pub, unnameable_types)]
+pub(crate) mod verif;
+
 #[cfg(test)]
 mod tests {
     use crate::test_utils::setup_tracing;
